@@ -286,12 +286,27 @@ class Ctx:
             return "unsat", None
         s = z3.Solver()
         s.set("timeout", timeout_ms or PROVE_TIMEOUT_MS)
-        for e in self.pc:
-            s.add(e)
-        for e in self.assumptions:
-            s.add(e)
+        # hypothesis = slice of (pc + assumptions) sharing variables with the goal, plus those extra axioms that
+        # only speak about variables of the slice.  Dropping hypotheses is sound for an unsat verdict; a sat
+        # verdict is re-checked against everything below before it is reported.
+        allc = [(c, frozenset(free_vars(c))) for c in list(self.pc) + list(self.assumptions)]
+        vs = set(free_vars(goal))
+        chosen = [False] * len(allc)
+        changed = True
+        while changed:
+            changed = False
+            for i, (c, cv) in enumerate(allc):
+                if not chosen[i] and (not cv or (cv & vs)):
+                    chosen[i] = True
+                    vs |= cv
+                    changed = True
+        sliced = not all(chosen)
+        for (c, _), ch in zip(allc, chosen):
+            if ch:
+                s.add(c)
         for e in extra:
-            s.add(e)
+            if not sliced or set(free_vars(e)) <= vs:
+                s.add(e)
         s.add(z3.Not(goal))
         t0 = time.time()
         r = str(s.check())
@@ -299,6 +314,22 @@ class Ctx:
         self.stats.prove[r] += 1
         if r != "sat":
             return r, None
+        if sliced:
+            # confirm the counterexample against the complete hypothesis set
+            s2 = z3.Solver()
+            s2.set("timeout", timeout_ms or PROVE_TIMEOUT_MS)
+            for c, _ in allc:
+                s2.add(c)
+            for e in extra:
+                s2.add(e)
+            s2.add(z3.Not(goal))
+            r2 = str(s2.check())
+            if r2 == "unsat":
+                self.stats.prove["sat"] -= 1
+                self.stats.prove["unsat"] += 1
+                return "unsat", None
+            if r2 == "sat":
+                return "sat", self._generic_model(s2)
         return r, self._generic_model(s)
 
     @staticmethod
@@ -328,15 +359,30 @@ class Ctx:
         return m
 
     def model(self, extra=()):
-        """A model of the path condition (for encoding validation), or None."""
-        s = z3.Solver()
-        s.set("timeout", BRANCH_TIMEOUT_MS)
-        for e in self.pc + self.assumptions + list(extra):
-            s.add(e)
-        self.last_model_status = str(s.check())
-        if self.last_model_status == "sat":
-            return s.model()
-        return None
+        """A model of the path condition with all assumptions (vacuity witness / validation point), or None."""
+        t0 = time.time()
+        self.solver.push()
+        self.solver.set("timeout", BRANCH_TIMEOUT_MS)
+        for e in self.assumptions:
+            if z3.is_distinct(e) or (z3.is_not(e) and z3.is_eq(e.arg(0))):
+                self.solver.add(e)  # denominators (kept out of the incremental solver otherwise)
+        for e in extra:
+            self.solver.add(e)
+        self.last_model_status = str(self.solver.check())
+        m = self.solver.model() if self.last_model_status == "sat" else None
+        self.solver.pop()
+        if self.last_model_status == "unknown":
+            # without the denominator disequalities: still a witness that the path itself is not vacuous
+            self.solver.push()
+            for e in extra:
+                self.solver.add(e)
+            r = str(self.solver.check())
+            if r == "sat":
+                self.last_model_status = "sat-without-denominators"
+                m = self.solver.model()
+            self.solver.pop()
+        self.stats.solver_s += time.time() - t0
+        return m
 
 
 def explore(fn, stats: Stats | None = None, max_paths=20000):
@@ -485,7 +531,21 @@ def _evalf(t, env, cache):
     raise Unsupported(f"evalf: {t.decl()} kind {k}")
 
 
+_FV_CACHE = {}
+
+
 def free_vars(term, acc=None, seen=None):
+    """name -> constant for the uninterpreted constants of a term (memoised per term when called plainly)."""
+    if acc is None and seen is None:
+        k = term.get_id()
+        hit = _FV_CACHE.get(k)
+        if hit is not None and hit[0].eq(term):
+            return hit[1]
+        r = free_vars(term, {}, set())
+        if len(_FV_CACHE) > 200000:
+            _FV_CACHE.clear()
+        _FV_CACHE[k] = (term, r)
+        return r
     acc = acc if acc is not None else {}
     seen = seen if seen is not None else set()
     stack = [term]
